@@ -409,9 +409,50 @@ class Lowering:
                 args.append(self.expr(a, env))
         kws = []
         for k in e.keywords:
-            kws.append((k.arg, self.expr(k.value, env)))
+            v = self.expr(k.value, env)
+            if k.arg is None and isinstance(k.value, ast.Name) and self._only_splatted(k.value.id):
+                # f(**kw) with kw a local dict display that is only ever splatted: the keywords written out
+                d = v[4] if op(v) == "new" and v[1] == "dict" else v
+                if op(d) == "dict" and all(kk is not None and is_const(kk) and isinstance(kk[1], str) for kk, _ in d[1]):
+                    kws.extend((kk[1], vv) for kk, vv in d[1])
+                    continue
+            kws.append((k.arg, v))
         kws.sort(key=lambda kv: (kv[0] is None, kv[0] or ""))
         return self.norm_call(("call", func, tuple(args), tuple(kws)))
+
+    def _only_splatted(self, name: str) -> bool:
+        """The local ``name`` is assigned once (a dict display) and otherwise used only as ``**name``."""
+        fn = self.fn
+        if fn is None or getattr(fn, "node", None) is None:
+            return False
+        cache = self.__dict__.setdefault("_splat_cache", {})
+        # a closure variable is judged in the enclosing function that binds it
+        while getattr(fn, "parent", None) is not None and not any(isinstance(n, ast.Name) and n.id == name and isinstance(n.ctx, ast.Store) for n in ast.walk(fn.node)):
+            fn = fn.parent
+        key = (fn.qualname, name)
+        if key in cache:
+            return cache[key]
+        stores = loads = splats = 0
+        splat_nodes = set()
+        for n in ast.walk(fn.node):
+            if isinstance(n, ast.Call):
+                for k in n.keywords:
+                    if k.arg is None and isinstance(k.value, ast.Name) and k.value.id == name:
+                        splat_nodes.add(id(k.value))
+        ok = True
+        for n in ast.walk(fn.node):
+            if isinstance(n, ast.Name) and n.id == name:
+                if isinstance(n.ctx, ast.Store):
+                    stores += 1
+                elif id(n) not in splat_nodes:
+                    loads += 1
+            elif isinstance(n, ast.arg) and n.arg == name:
+                ok = False
+        for n in ast.walk(fn.node):
+            if isinstance(n, ast.Assign) and any(isinstance(t, ast.Name) and t.id == name for t in n.targets) and not isinstance(n.value, ast.Dict):
+                ok = False
+        cache[key] = ok and stores == 1 and loads == 0
+        return cache[key]
 
     def norm_call(self, t: tuple) -> tuple:
         func, args, kws = t[1], t[2], t[3]
@@ -432,7 +473,10 @@ class Lowering:
             if fname == "filter":
                 cond = v if is_const(args[0], None) else ("call", args[0], (v,), ())
                 return ("comp", "gen", v, ((v, args[1], (cond,)),))
-            return ("comp", "gen", ("call", args[0], (v,), ()), ((v, args[1], ()),))
+            return ("comp", "gen", self.norm_call(("call", args[0], (v,), ())), ((v, args[1], ()),))
+        if op(func) == "builtin" and fname == "zip" and len(args) == 2 and not kws and op(args[0]) == "call" and args[0][1] == ("ext", "itertools.count") and len(args[0][2]) <= 1 and not args[0][3] and op(args[1]) != "star":
+            # zip(itertools.count(k), xs) yields the pairs of enumerate(xs, start=k)
+            return ("call", ("builtin", "enumerate"), (args[1],), (("start", args[0][2][0]),) if args[0][2] else ())
         if fname == "typing.cast" and len(args) == 2:
             return args[1]
         if fname in ("list", "dict", "set") and not args and not kws:
@@ -441,15 +485,18 @@ class Lowering:
             prm = self.fn.param(args[0][1])
             if prm is not None and prm.annotation is not None and ast.unparse(prm.annotation) == "bool":
                 return args[0]
-        if op(func) == "attr" and func[2] == "format" and is_const(func[1]) and isinstance(func[1][1], str) and not kws and not any(op(a) == "star" for a in args):
-            pieces = func[1][1].split("{}")
-            if len(pieces) == len(args) + 1 and not any("{" in x or "}" in x for x in pieces):
-                parts: list = []
-                for i, piece in enumerate(pieces):
-                    self._push_part(parts, ("const", piece))
-                    if i < len(args):
-                        self._push_part(parts, args[i])
-                return ("concat", tuple(parts)) if parts else ("const", "")
+        if op(func) == "attr" and func[2] == "format" and not any(op(a) == "star" for a in args) and not any(k is None for k, _ in kws):
+            tmpl = func[1]
+            if op(tmpl) == "gconst":
+                try:
+                    val = self.model.const_value(self.model.modules[tmpl[1]], tmpl[2])
+                except Exception:  # noqa: BLE001
+                    val = None
+                tmpl = ("const", val) if isinstance(val, str) else tmpl
+            if is_const(tmpl) and isinstance(tmpl[1], str):
+                r = self._format_template(tmpl[1], args, dict(kws))
+                if r is not None:
+                    return r
         if op(func) == "attr" and func[2] == "join" and is_const(func[1]) and len(args) == 1 and not kws:
             inner = args[0]
             if op(inner) == "call" and op(inner[1]) == "attr" and inner[1][2] == "split" and len(inner[2]) == 1 and not inner[3]:
@@ -460,6 +507,20 @@ class Lowering:
                 return ("dict", tuple((("const", k), v) for k, v in nt[1].items()))
         if fname == "getattr" and len(args) in (2, 3) and not kws and is_const(args[1]) and isinstance(args[1][1], str):
             return self.mk_attr(args[0], args[1][1])
+        if op(func) == "call" and op(func[1]) == "ext" and len(args) == 1 and not kws and not func[3] and op(args[0]) != "star":
+            # operator.attrgetter("a.b")(x) == x.a.b ;  operator.itemgetter(k)(x) == x[k]  (several keys: a tuple)
+            g, gargs = func[1][1], func[2]
+            if g == "operator.attrgetter" and gargs and all(is_const(a) and isinstance(a[1], str) for a in gargs):
+                def walk_(x, dotted):
+                    for part in dotted.split("."):
+                        x = self.mk_attr(x, part)
+                    return x
+
+                vals = [walk_(args[0], a[1]) for a in gargs]
+                return vals[0] if len(vals) == 1 else ("tuple", tuple(vals))
+            if g == "operator.itemgetter" and gargs and all(is_const(a) for a in gargs):
+                vals = [self.mk_item(args[0], a) for a in gargs]
+                return vals[0] if len(vals) == 1 else ("tuple", tuple(vals))
         return t
 
     def e_Subscript(self, e, env):
@@ -483,6 +544,58 @@ class Lowering:
             if not any(op(x) == "star" for x in elts) and -len(elts) <= idx[1] < len(elts):
                 return elts[idx[1]]
         return ("item", base, idx)
+
+    def _format_template(self, template: str, args, kws: dict):
+        """'..{}..{name}..{0.attr}..'.format(...) as the concatenation an f-string with the same fields is."""
+        import string
+
+        try:
+            fields = list(string.Formatter().parse(template))
+        except ValueError:
+            return None
+        parts: list = []
+        auto = 0
+        numbered = False
+        for lit, name, spec, conv in fields:
+            if lit:
+                self._push_part(parts, ("const", lit))
+            if name is None:
+                continue
+            if "[" in name:
+                return None
+            head, *attrs = name.split(".")
+            if head == "":
+                if numbered:
+                    return None
+                if auto >= len(args):
+                    return None
+                v = args[auto]
+                auto += 1
+            elif head.isdigit():
+                if auto:
+                    return None
+                numbered = True
+                if int(head) >= len(args):
+                    return None
+                v = args[int(head)]
+            else:
+                if head not in kws:
+                    return None
+                v = kws[head]
+            for a in attrs:
+                v = self.mk_attr(v, a)
+            if spec or conv:
+                if spec and ("{" in spec):
+                    return None
+                v = ("fmt", v, conv or "", ("const", spec) if spec else NONE)
+            if op(v) == "concat":
+                for q in v[1]:
+                    self._push_part(parts, q)
+            else:
+                self._push_part(parts, v)
+        if len(parts) == 1 and is_const(parts[0]) and isinstance(parts[0][1], str):
+            return parts[0]
+        return ("concat", tuple(parts)) if parts else ("const", "")
 
     def e_JoinedStr(self, e, env):
         parts: list = []
@@ -572,6 +685,8 @@ class Lowering:
             return a if c[1] else b
         if c == a:
             return ("or", (a, b))
+        if c == ("not", b) or (op(c) == "not" and ("truth", c[1]) == b):
+            return ("or", (b, a))  # a if not b else b
         return ("ifexp", c, a, b)
 
     def _elts(self, elts, env):
